@@ -3,8 +3,14 @@
 package lens
 
 import (
+	"crypto/sha256"
+	"encoding/hex"
+	"fmt"
+	"io/fs"
 	"os"
+	"path/filepath"
 	"sort"
+	"strings"
 )
 
 func mkdirAll(p string) error { return os.MkdirAll(p, 0755) }
@@ -20,4 +26,78 @@ func readDirNames(p string) ([]string, error) {
 	}
 	sort.Strings(r)
 	return r, nil
+}
+
+// snapEntry describes one path of a snapshot.
+type snapEntry struct {
+	Type string
+	Mode fs.FileMode
+	Size int64
+	Sum  string
+}
+
+// snapshot returns path -> (type, mode bits, size, SHA-256) for everything under dir.
+func snapshot(dir string) map[string]snapEntry { return snapshotExcept(dir, "") }
+
+func snapshotExcept(dir, except string) map[string]snapEntry {
+	m := map[string]snapEntry{}
+	filepath.WalkDir(dir, func(p string, d fs.DirEntry, err error) error {
+		if err != nil {
+			return nil
+		}
+		if except != "" && (p == except || strings.HasPrefix(p, except+string(filepath.Separator))) {
+			if d.IsDir() {
+				return filepath.SkipDir
+			}
+			return nil
+		}
+		rel, _ := filepath.Rel(dir, p)
+		info, err := d.Info()
+		if err != nil {
+			return nil
+		}
+		e := snapEntry{Mode: info.Mode().Perm()}
+		switch {
+		case info.Mode()&fs.ModeSymlink != 0:
+			e.Type = "symlink"
+			e.Sum, _ = os.Readlink(p)
+		case d.IsDir():
+			e.Type = "dir"
+		case info.Mode().IsRegular():
+			e.Type = "file"
+			e.Size = info.Size()
+			if b, err := os.ReadFile(p); err == nil {
+				h := sha256.Sum256(b)
+				e.Sum = hex.EncodeToString(h[:8])
+			}
+		default:
+			e.Type = "other"
+		}
+		m[rel] = e
+		return nil
+	})
+	return m
+}
+
+// diffSnap describes the first differences between two snapshots ("" = identical).
+func diffSnap(a, b map[string]snapEntry) string {
+	var d []string
+	for k, v := range a {
+		w, ok := b[k]
+		if !ok {
+			d = append(d, "removed "+k)
+		} else if v != w {
+			d = append(d, fmt.Sprintf("changed %s (%v -> %v)", k, v, w))
+		}
+	}
+	for k := range b {
+		if _, ok := a[k]; !ok {
+			d = append(d, "added "+k)
+		}
+	}
+	sort.Strings(d)
+	if len(d) > 6 {
+		d = append(d[:6], fmt.Sprintf("... %d more", len(d)-6))
+	}
+	return strings.Join(d, "; ")
 }
